@@ -211,6 +211,15 @@ def _session_scenario(rng, purpose="rewind", allow_spend=True):
         scn["observe"] = False
     else:
         g.build(rng.range(3, 25))
+        if fam == "disabled" and rng.chance(20):
+            # one chain of repeated doubling somewhere in the script
+            g.emit(rng.bytes(rng.range(1, 3)))
+            for _ in range(rng.choice([12, 15, 16, 17])):
+                g.emit("OP_DUP", "OP_CAT")
+            g.st.append("d")
+            g.features.add("huge-item")
+            for _ in range(rng.range(0, 4)):
+                g.snippet()
     toks = g.toks
     scn["script"] = hexs(S.asm(toks))
     if fam not in ("bigstack",):
